@@ -324,6 +324,9 @@ func (f *Func) CalleeName(c ssa.CallInstruction) string {
 	if b, ok := cc.Value.(*ssa.Builtin); ok {
 		return b.Name()
 	}
+	if fn := FuncAlias(cc.Value); fn != nil {
+		return FuncName(fn)
+	}
 	return "dyn"
 }
 
@@ -333,7 +336,7 @@ func (f *Func) CallArgs(c ssa.CallInstruction) []*Term {
 	var vs []ssa.Value
 	if cc.IsInvoke() {
 		vs = append(vs, cc.Value)
-	} else if cc.StaticCallee() == nil {
+	} else if cc.StaticCallee() == nil && FuncAlias(cc.Value) == nil {
 		if _, ok := cc.Value.(*ssa.Builtin); !ok {
 			vs = append(vs, cc.Value)
 		}
